@@ -8,6 +8,12 @@
 #include <sstream>
 #include <vector>
 
+// Default (no-op) definition of the instrumentation hook of /repo (guard YGM_VERIF_HOOKS).
+// A harness that wants the events defines a strong `ygm_verif_hook` itself.
+#ifndef HC_OWN_HOOK
+extern "C" __attribute__((weak)) void ygm_verif_hook(const char*, long, long, long) {}
+#endif
+
 namespace hc {
 // per-rank output file $SIMMPI_TMP/out.<rank>: bulk data, collected by run_sim
 inline FILE*& outf() { static FILE* f = nullptr; return f; }
